@@ -62,3 +62,13 @@ package settings
 //@   requires[entries] s.model != nil && s.model.Patterns != nil ==> forall k in keys(s.model.Patterns): s.model.Patterns[k] != nil
 //@   modifies *
 //@   loop 0 iteration[every_persisted_pattern_is_restored_with_its_persisted_settings] calls("New") == old(calls("New")) + 1 && has(s.patterns, pattern.NameCanonicalForm) && s.patterns[pattern.NameCanonicalForm] == lastret("New") && lastarg("New", 0).InMemory == pattern.InMemory && lastarg("New", 0).CloseAfterIdleSec == pattern.CloseAfterIdleSec * 1000000000 && lastarg("New", 0).WriteIntervalSec == pattern.WriteIntervalSec * 1000000000 && lastarg("New", 0).MaxFileSizeByte == pattern.MaxFileSizeByte
+
+// DeregisterPattern (property C21, re-registrations): the pattern leaves the persisted model BEFORE the
+// model is saved (so it does not come back after a restart), it is saved exactly once, and the pattern
+// leaves the runtime table too.
+//@ func (*settings).DeregisterPattern(s, pattern)
+//@   property C21
+//@   requires[args] pattern != nil && s.patterns != nil && s.model != nil && s.model.Patterns != nil
+//@   modifies *
+//@   ensures[gone_from_the_runtime_table_and_the_persisted_model] !has(s.patterns, icall("Get", pattern)) && !has(s.model.Patterns, icall("Get", pattern))
+//@   ensures[saved_exactly_once] calls("settings.SaveSettingsToFilesystem") == old(calls("settings.SaveSettingsToFilesystem")) + 1
